@@ -259,12 +259,22 @@ fn op_record(case: &Value) -> Value {
 
 // ---------------------------------------------------------------- decoding arbitrary bytes
 fn typed<T: Serialize + DeserializeOwned>(record: &Record) -> Value {
+    // reference reading of the clause "the tag occupies a fixed-size prefix": what T's decoder makes of
+    // the bytes after the first RecordHeader::SIZE = 2, independently of try_deserialize_record
+    let direct: Option<Value> = if record.value.len() > 2 {
+        rmp_serde::from_slice::<T>(&record.value[2..]).ok().map(|y| rec::tree(&y).unwrap_or(Value::Null))
+    } else {
+        None
+    };
     match try_deserialize_record::<T>(record) {
         Ok(y) => match rec::tree(&y) {
-            Ok(t) => json!({"ok": true, "tree": t}),
-            Err(e) => json!({"ok": true, "tree_err": e.0}),
+            Ok(t) => {
+                let same = direct.as_ref() == Some(&t);
+                json!({"ok": true, "tree": t, "direct_ok": direct.is_some(), "direct_same": same})
+            }
+            Err(e) => json!({"ok": true, "tree_err": e.0, "direct_ok": direct.is_some(), "direct_same": direct.is_some()}),
         },
-        Err(_) => json!({"ok": false}),
+        Err(_) => json!({"ok": false, "direct_ok": direct.is_some(), "direct_same": direct.is_none()}),
     }
 }
 
